@@ -237,9 +237,9 @@ def run(tier, seed):
                case_kinds=kinds, value_checks_conclusive=conclusive, value_checks_inconclusive_discarded=inconclusive,
                feature_histogram=feats, kernel_reevaluated=nk, kleene_steps=K_ENCL,
                samples=[dict(spec=gen.spec_jsonable(s0[0]), semiring=repr(s0[1]), method=s0[2], tol=s0[3], kmax=s0[4], observed=s0[5])] if s0 else [],
-               open_items=["Newton iterates between Kleene iterates and the least fixed point (EKL) -- tier B; newton/linear values are judged by the enclosure oracle, not by a model of the iteration",
+               open_items=["(tier B, CLOSED) Newton's method is modelled (Model/Newton.v) and C02_newton_sandwich is proved for every number of edges per rule (the Taylor inequality holds monomial by monomial; nothing is _partial). Remaining about newton: the model reads a MultiTensor as an environment (absent key = zero block; all Jacobian blocks present; elimination order = the component's order) -- that the presence pattern and the order of _order_nonterminals give the same vector is C09_multi_solve_refines, not re-proved at the level of newton's absent keys; F is the spec-level step (F_model = step on the range is the open bridge below); soundness of newton_check is proved per component (C02_newton_comp_refines / C02_kleene_comp_refines), not for the fold over the SCC order; rounding (the reason for the two maximum_ clamps, which are proved to be no-ops in exact arithmetic) and the tolerance semantics of the stop test are not modelled: with tol > 0 only the upper half (result <= every pre-fixed point) is a theorem for the returned value",
                            "must_warn unrolls the first kmax+1 stopping tests (kmax in {1,2}) on tables built with the code-shaped F_model; the loop theorems (C02_fixed_point_warns_iff, C02_newton_warns_iff) are about an abstract F/close -- F_model = step on the range (C01's spe theorem lifted to recursive components) is not connected here",
-                           "C02_linear_is_least_fixed_point (multi_solve J0 F0 is the least fixed point of a linearly recursive component, any elimination order / the code's order, all ordered star-semirings; instances for Bool, Real, Viterbi) takes as hypothesis that the MultiTensors J0/F0 hold lin_J0/lin_F0 at the row-major positions of the index tuples (tabulates_J0/tabulates_F0); that linear's sum_product_edges calls produce exactly these tables is C01's spe theorem and is not connected at table level, and Newton's linear sub-steps are not modelled; C02_scc_decomposition is proved for exactly solved components (Prop-level exact_run), not for the table-level driver with approximate per-component results"])
+                           "C02_linear_is_least_fixed_point (multi_solve J0 F0 is the least fixed point of a linearly recursive component, any elimination order / the code's order, all ordered star-semirings; instances for Bool, Real, Viterbi) takes as hypothesis that the MultiTensors J0/F0 hold lin_J0/lin_F0 at the row-major positions of the index tuples (tabulates_J0/tabulates_F0); that linear's sum_product_edges calls produce exactly these tables is C01's spe theorem and is not connected at table level (Newton's inner multi_solve calls are covered separately: C02_newton_solve_least builds the tables by tabulation, so no such hypothesis is left there); C02_scc_decomposition is proved for exactly solved components (Prop-level exact_run), not for the table-level driver with approximate per-component results"])
     return cov, violations
 
 def replay(path):
@@ -262,7 +262,7 @@ def replay(path):
 
 MANIFEST = dict(
     level="proof",
-    text="Coq: Kleene iterates of the grammar's equations are the bounded-depth derivation sums (C01's theorem), are monotone, stay below every pre-fixed point (Park), also when rounded down; hence [K rounded Kleene steps, verified pre-fixed point] encloses the least fixed point. Every value returned by fixed-point / newton / linear on generated recursive FGGs must meet that enclosure (exactly in Bool/Viterbi); budget-exhaustion warnings and the ValueError of method='linear' are compared with the control-flow model. Also proved: the loop shapes of fixed_point / newton warn iff the stopping test never held within the budget (the pre-repair newton loop never warns), ValueError iff method=linear meets a rule with two component edges, linearly recursive components are affine with linear's J0/F0 and multi_solve(J0, F0) -- what method='linear' and newton's downgrade return -- is their least fixed point in every ordered star-semiring (C02_linear_is_least_fixed_point, composed with C09_multi_solve_refines), SCC-by-SCC exact solution is the global least fixed point, and verdict 0 of the check implies the observed values are (Bool) / enclose (Viterbi) / meet a certified enclosure of (Real, Log) the least fixed point.",
-    note="Trusted: Coq kernel, extraction cross-checked by vm_compute, harness; Newton's iterates are not modelled (judged by the enclosure oracle); grammars without a certified enclosure are discarded (counted in evidence).",
-    technique="Coq proof (Park induction, Kleene = derivation sums) + certified-enclosure oracle on implementation outputs + control-flow correspondence",
+    text="Coq: Kleene iterates of the grammar's equations are the bounded-depth derivation sums (C01's theorem), are monotone, stay below every pre-fixed point (Park), also when rounded down; hence [K rounded Kleene steps, verified pre-fixed point] encloses the least fixed point. Every value returned by fixed-point / newton / linear on generated recursive FGGs must meet that enclosure (exactly in Bool/Viterbi); budget-exhaustion warnings and the ValueError of method='linear' are compared with the control-flow model. Also proved: the loop shapes of fixed_point / newton warn iff the stopping test never held within the budget (the pre-repair newton loop never warns), ValueError iff method=linear meets a rule with two component edges, linearly recursive components are affine with linear's J0/F0 and multi_solve(J0, F0) -- what method='linear' and newton's downgrade return -- is their least fixed point in every ordered star-semiring (C02_linear_is_least_fixed_point, composed with C09_multi_solve_refines), SCC-by-SCC exact solution is the global least fixed point, and verdict 0 of the check implies the observed values are (Bool) / enclose (Viterbi) / meet a certified enclosure of (Real, Log) the least fixed point. Newton (tier B): Model/Newton.v models the loop of sum_product.py:newton (F0 = max(F x, x); dX = multi_solve(J x, F0 - x); x += dX; x = max(x, F0); stop test; for/else warning) with the code-shaped Jacobian and multi_solve_model; proved for all ordered commutative star-semirings (premises about sub/maximum proved for Bool, Real, Viterbi): the Taylor inequality F(x) + J(x).d <= F(x+d) for rules with any number of edges, multi_solve on the tabulated blocks = least solution of y = A y + b, and the Esparza-Kiefer-Luttenberger sandwich Kleene_k <= Newton_k <= every pre-fixed point with Newton_k increasing and Newton_k <= F(Newton_k) (C02_newton_sandwich); both maximum_ clamps are no-ops in exact arithmetic; every iterate lies below the upper end of a certified enclosure and from iterate 4j on inside it; exact stop test + no warning => the result is the least fixed point; one pass solves a linearly recursive component exactly. Correspondence: method='newton' is run with kmax in {1,2,3} (stop test disabled by tol=1e-300) on non-linear recursive grammars in Real, Log, Viterbi, Bool and its unconverged result is compared inside Coq with the model's exact kmax-th Newton iterate (rtol 1e-6; Bool exact) and with the kmax-th Kleene iterate as lower bound.",
+    note="Trusted: Coq kernel, extraction cross-checked by vm_compute, harness; converged newton results are judged by the enclosure oracle, unconverged ones (kmax <= 3) by the model of the iteration; grammars without a certified enclosure are discarded (counted in evidence).",
+    technique="Coq proof (Park induction, Kleene = derivation sums, Taylor inequality + least solutions of linear systems for the Newton sandwich) + certified-enclosure oracle on implementation outputs + control-flow correspondence + model of Newton's iterates compared after a fixed number of passes",
     design_ref="DESIGN.md section 6, C02")
